@@ -135,6 +135,9 @@ func runC20(r *simkit.R) {
 	}
 	faultPct := []int{0, 0, 6, 15}[r.Intn(4)]
 	modes := r.Bool(60)
+	// (swarm: half of the runs with mode switches stay out of the degraded, no-metabase modes, whose
+	// known weaknesses F28/F31/F32 otherwise colour most histories)
+	degradedModes := r.Bool(50)
 	nops := 3 + r.Intn(12)
 	// in some runs a few objects start with copies on several shards (left by earlier placement
 	// changes, as the policer finds them): stored directly through the shards
@@ -186,6 +189,9 @@ func runC20(r *simkit.R) {
 				break
 			}
 			op = &enOp{kind: "mode", sh: r.Intn(cfg.nshards), m: []mode.Mode{mode.ReadWrite, mode.ReadOnly, mode.DegradedReadOnly, mode.ReadWrite, mode.Degraded}[r.Intn(5)], flag: r.Bool(50)}
+			if !degradedModes && op.m.NoMetabase() {
+				op.m = mode.ReadOnly
+			}
 		case 7:
 			if added || cfg.nshards >= 4 {
 				op = &enOp{kind: "get", id: r.Intn(nreg)}
@@ -596,6 +602,16 @@ func describeLin(lin []simkit.LinOp, key string) string {
 	st := stAbsent
 	lastMut := ""
 	tombDone := false
+	// the culprit = the operation closing the shortest non-linearizable prefix; acknowledged
+	// mutations that had not returned when it was invoked are concurrent with it and do not
+	// replace the root established before
+	culpritCall := ^uint64(0)
+	for i := range ops {
+		if linReach(ops, i) == 0 {
+			culpritCall = ops[i].Call
+			break
+		}
+	}
 	for i, o := range ops {
 		out := o.Out.(regOut)
 		nx := linReach(ops, i)
@@ -609,7 +625,7 @@ func describeLin(lin []simkit.LinOp, key string) string {
 			}
 			return sig
 		}
-		if k := o.In.(string); out.res == "ok" && k != "get" && k != "head" {
+		if k := o.In.(string); out.res == "ok" && k != "get" && k != "head" && o.Ret < culpritCall {
 			switch {
 			case !tombDone:
 				// the diagnosis stays with the last acknowledged mutation; once a tombstone was
@@ -851,7 +867,8 @@ func runC08(r *simkit.R) {
 							byWorkload = true
 						}
 					}
-					if f[1] == "islocked" && !byWorkload {
+					_ = byWorkload // (a workload IsLocked in flight does not say whose gate this is: every lock check counts)
+					if f[1] == "islocked" {
 						if _, ok := gcFirstCheckAt[x]; !ok {
 							gcFirstCheckAt[x] = nbound
 						}
